@@ -68,7 +68,10 @@ func genOutcomes(t *rapid.T) []world.FetchOutcome {
 		if k == "chunkerr" || k == "listerr" {
 			// flavours of a transient failure: generic, deadline exceeded, the DA layer's own deadline /
 			// timeout errors, and a call that hangs until the fetch timeout fires
-			o.Err = rapid.SampledFrom([]string{"", "", "deadline", "da-deadline", "timeout", "hang"}).Draw(t, "flavour")
+			o.Err = rapid.SampledFrom([]string{"", "", "deadline", "da-deadline", "timeout", "hang", "notfound"}).Draw(t, "flavour")
+			if k == "listerr" && o.Err == "notfound" {
+				o.Err = "" // a listing answered "not found" IS an empty height for the caller (outcome kind notfound), not a fault
+			}
 		}
 		out = append(out, o)
 	}
